@@ -13,12 +13,14 @@ package criteria_ordering
 //@   property C15 C16
 //@   requires model.distinctCriteria(params.Criteria) && model.validParams(*listener, params.MethodParameters) && model.coversAll(*listener, params.MethodParameters, params.Criteria)
 //@   ensures [permutation] result != nil && fresh(result) && fresh(*result) && model.rearranged(*result, params.Criteria)
+//@   ensures [C15 C16 the_listeners_ascending_ranking] forall k int :: 0 <= k && k < len(*result) ==> (*result)[k].Id == model.rankedId(*listener, params, k)
 //@   ensures [weakest_first] forall i int, j int :: 0 <= i && i < j && j < len(*result) ==> model.imp(*listener, params, (*result)[i].Id) <= model.imp(*listener, params, (*result)[j].Id)
 
 //@ func (*StrongestCriteriaOrderingResolver).OrderCriteria
 //@   property C15 C16
 //@   requires model.distinctCriteria(params.Criteria) && model.validParams(*listener, params.MethodParameters) && model.coversAll(*listener, params.MethodParameters, params.Criteria)
 //@   ensures [permutation] result != nil && fresh(result) && fresh(*result) && model.rearranged(*result, params.Criteria)
+//@   ensures [C15 C16 exact_reverse_of_weakest] forall k int :: 0 <= k && k < len(*result) ==> (*result)[k].Id == model.rankedId(*listener, params, len(*result) - 1 - k)
 //@   ensures [strongest_first] forall i int, j int :: 0 <= i && i < j && j < len(*result) ==> model.imp(*listener, params, (*result)[i].Id) >= model.imp(*listener, params, (*result)[j].Id)
 //@   loop 1 invariant [ctx] fresh(descending) && len(descending) == totalCount && totalCount == len(*ascending) && model.rearranged(*ascending, params.Criteria)
 //@   loop 1 invariant [reversed] forall k int :: totalCount - iter <= k && k < totalCount ==> descending[k] == (*ascending)[totalCount - 1 - k]
